@@ -734,6 +734,15 @@ def _judge(sc, fault, stats):
             # file, and whatever the interrupted clean-up had not reached, stays
             stats["leftover_tolerated_interrupted_remove"] += 1
             left = 0
+        if left and kind in ("oserror", "interrupt") and result:
+            # the same, whatever way the clean-up is implemented: the fault was the refusal
+            # (or the interruption) of opening / listing a DIRECTORY under which everything
+            # that is left lies - a clean-up that walks its work area cannot get past that
+            refused_dirs = [entry[3] for entry in result.get("log", []) if entry[0] == "fault" and entry[4] and entry[1] in ("open-r", "scandir", "listdir", "rmdir")]
+            leftovers = ["<T>/" + name for name in tmp_after] + ["<W>/" + name for name in new_in_work]
+            if refused_dirs and all(any(item.startswith(folder.rstrip("/") + "/") for folder in refused_dirs) for item in leftovers):
+                stats["leftover_tolerated_refused_directory_walk"] += 1
+                left = 0
         if left:
             out.append(
                 violation(
